@@ -50,10 +50,15 @@ func collect(rep *Report, s *engine.Session, i int, ps uint64, tw *bufio.Writer,
 		tw.Write(s.Trace.Bytes())
 		fmt.Fprintf(tw, "end\n")
 	}
+	perKind := map[string]int{}
+	kept := 0
 	for k, f := range s.Failures {
-		if k >= 3 {
-			break
+		// at most 2 per kind and 12 per program: a frequent (or known) kind must not hide a different one
+		if perKind[f.Prop+"/"+f.Kind] >= 2 || kept >= 12 {
+			continue
 		}
+		perKind[f.Prop+"/"+f.Kind]++
+		kept++
 		fr := FailureRec{Prop: f.Prop, Kind: f.Kind, Msg: f.Msg, Seed: *fSeed, Program: i, Step: f.Step}
 		if k == 0 && keepTrace {
 			fr.Trace = s.Trace.String()
